@@ -39,8 +39,12 @@ def _setup_child():
 
 
 def home_dir():
+    # the overwrite files created in HOME embed the suite path: one HOME per judged repository
+    import hashlib
     from travsim.run import scratch_root
-    path = os.path.join(scratch_root(), f"travsim-home-{os.getuid()}")
+    from travsim import resolver
+    tag = hashlib.sha256(resolver.suite_path_of({}).encode()).hexdigest()[:8]
+    path = os.path.join(scratch_root(), f"travsim-home-{os.getuid()}-{tag}")
     os.makedirs(path, exist_ok=True)
     return path
 
@@ -77,6 +81,10 @@ def execute(plan):
     prepare_suite(plan["scenario"])
     t0 = time.monotonic()
     history = trun.run_plan(plan)
+    for ending in history["endings"]:
+        if ending.get("error_type") in ("FileNotFoundError", "PermissionError") and "travsim-" in (ending.get("error") or ""):
+            # the scratch suite/home vanished under the run: a harness problem, never a verdict
+            raise RuntimeError("scratch files of the simulation disappeared: " + ending["error"])
     prop = plan["property"]
     violations = evaluate(prop, history)
     execs = sum(1 for ev in history["events"] if ev["kind"] == "start")
@@ -283,7 +291,8 @@ def minimise(plan, violation, budget_runs=24, wall=90.0):
 
 
 def run_check(prop, tier, replay=None):
-    from travsim import scenarios
+    from travsim import scenarios, gensuite
+    gensuite.run_id()
     t_start = time.monotonic()
     report = common.Report(prop)
     seed0 = common.verif_seed()
